@@ -394,7 +394,38 @@ fn exec(w: &mut Worker, o: &Value) {
         }
         "try_into_mut" | "into_mut" | "into_vec" => {
             if let Some(s) = w.own.get_mut(i) {
-                if let Some(H::B(bb)) = s.h.take() {
+                // a BytesMut piece converted into a Vec (From<BytesMut> for Vec<u8>)
+                if name == "into_vec" && matches!(s.h, Some(H::M(_))) {
+                    if let Some(H::M(m)) = s.h.take() {
+                        let before = m.as_ptr() as usize;
+                        let nonempty = !m.is_empty();
+                        let v = Vec::from(m);
+                        la::set_window(0);
+                        let mut e = LogEv::new("read", tnum());
+                        e.h = s.gid;
+                        e.id = 0;
+                        e.dok = v[..] == s.exp[..];
+                        e.note = "converted";
+                        push(e);
+                        // (no `excl` event: a BytesMut piece already is the exclusive owner of its region, and
+                        // exclusivity of the whole buffer may legitimately pass from a piece that reclaimed it
+                        // and was dropped to the piece converted here)
+                        let _ = before;
+                        s.h = Some(H::V(v));
+                        s.addr = 0;
+                        la::set_window(1);
+                        if let Some(H::V(v)) = s.h.as_mut() {
+                            if !v.is_empty() {
+                                v[0] ^= 0x80;
+                                s.exp[0] ^= 0x80;
+                            }
+                        }
+                        la::set_window(0);
+                        if nonempty {
+                            log_access("write", s, "after_convert");
+                        }
+                    }
+                } else if let Some(H::B(bb)) = s.h.take() {
                     let before = bb.as_ptr() as usize;
                     let nonempty = !bb.is_empty();
                     let r: Result<H, Bytes> = match name {
